@@ -192,6 +192,16 @@ impl RetryManager {
     fn add_pending_appointments(&mut self, tower_id: TowerId, locators: HashSet<Locator>) {
         if let std::collections::hash_map::Entry::Vacant(e) = self.retriers.entry(tower_id) {
             log::debug!("Creating a new entry for tower {tower_id}");
+            // There may be older pending appointments nobody is taking care of anymore (e.g. the previous retrier failed
+            // for good). A new retrier takes them all.
+            let mut locators = locators;
+            locators.extend(
+                self.wt_client
+                    .lock()
+                    .unwrap()
+                    .dbm
+                    .load_appointment_locators(tower_id, crate::AppointmentStatus::Pending),
+            );
             e.insert(Arc::new(Retrier::new(
                 self.wt_client.clone(),
                 tower_id,
